@@ -17,13 +17,17 @@ CHECKS = {
         level="exploration",
         runs=[dict(name="aws", target="h_aws", args=[], quick=["--k", "4"], thorough=["--k", "4"],
                    env={"TZ": "VFT-13"})],   # a non-UTC local zone: a signer that used local time would be seen
-        deadline=dict(quick=150, thorough=600),
+        deadline=dict(quick=150, thorough=900),   # deep: ~300 s measured on a loaded machine (about 1000 CPU-seconds)
         rule=("per variant every combination of input values in which at most K dimensions (key id, secret, region, method, bucket, path, "
               "service, op, body, expiry, clock) deviate from their default; a case is non-trivial when the signer succeeded and the independent "
               "verifier recomputed and matched the signature (distinct signatures are counted)"),
         bounds=dict(quick="4 variants, K=4 (all quadruples); string lengths {0,1,2,3,8,64,200}, secret lengths {0,1,2,3,8,59,60,61,64,200}, 11 bodies "
                           "(NULL, NULL with length, empty .. 102400 bytes), 4 expiries, 11 clock values incl. failure",
-                    thorough="4 variants, K=4 (all quadruples); string lengths {0,1,2,3,8,63,64,65,199,200}, 14 secret lengths, 17 bodies, 6 expiries, 16 clock values"),
+                    thorough="4 variants, K=4 (all quadruples); string lengths {0,1,2,3,8,63,64,65,199,200}, 14 secret lengths, 17 bodies, 6 expiries, 16 clock values "
+                             "(these bounds also serve the quick tier: 3347905 cases). ./check --tier thorough runs the harness with --deep: K=4 over alphabets extended "
+                             "once more -- string lengths + {4,16,32,127,128} (15), secret lengths + {16,32,100,187,188,189} (20; 'AWS4'+secret crosses the third HMAC "
+                             "block), bodies + {2,54,57,118,121,8192,32768} bytes (24), expiries + {2,59,60,86399} (10), clock values + {59,60,3599,3600,1999-12-31 "
+                             "23:59:59 and the next second, 2^32-1, 2^32} (24): 15772650 cases"),
         assumptions=["time() replaced by the harness at link time; the fake clock advances one second per call",
                      "inputs over the URI-unreserved alphabet (the interface does no percent-encoding), secrets over printable ASCII, paths are absolute",
                      "reference: engine/ref/sigv4_ref.c over OpenSSL SHA-256/HMAC, self-tested on two examples of the AWS documentation"],
@@ -40,6 +44,8 @@ CLAIMS = {
               "year and 2^31 boundaries."),
         note=("Trusted: OpenSSL SHA-256/HMAC, engine/ref/sigv4_ref.c (checked against two published AWS examples), interposed time(). "
               "Exhaustive only over the stated length/value alphabets and deviation bound K; field contents are fixed cyclic patterns of the "
-              "unreserved alphabet. An empty path is not generated (not a request target)."),
+              "unreserved alphabet. An empty path is not generated (not a request target). The thorough tier (--deep) keeps K=4 and enlarges every "
+              "alphabet (bounds.thorough); all quintuples over the thorough alphabets (27982705 cases) were run once during development and verified, "
+              "but cost twice the time budget."),
         technique="exhaustive K-way input enumeration against an independent verifier", engine="vf"),
 }
